@@ -246,3 +246,41 @@ package db
 //@   before[only-when-present] call NewHTTPError#1 $0 == 404 && (prop in callres(Body, 1, 0))
 //@   ensures[rejected]         !isNilErr(result) ==> httpStatus(result) == 404
 //@   ensures[reserved-rejected] isNilErr(result) ==> !c19JSONHasKey(rawBody, base.SyncPropertyName) && !c19JSONHasKey(rawBody, BodyId) && !c19JSONHasKey(rawBody, BodyRev) && !c19JSONHasKey(rawBody, BodyDeleted) && !c19JSONHasKey(rawBody, BodyRevisions)
+
+// ---- write paths: the body handed on for storage carries no reserved property the gateway consumes ----
+// (Put and its callback: clauses [stripped], [deleted-flag], [no-deleted-in-stored-body] in zz_verif_c05.go, `also C19`.)
+
+// bodies with every key except k unchanged
+//@ pred bodyOnlyKeyChanged(b Body, k string) bool
+//@   is forall j string :: {j in b} {b[j]} j != k ==> ((j in b) <==> old(j in b)) && b[j] == old(b[j])
+
+//@ func Body.ExtractDeleted
+//@   safety on
+//@   requires body != nil
+//@   modifies elems(body)
+//@   ensures[flag]    result == old(body.IsDeleted())
+//@   ensures[removed] !(BodyDeleted in body)
+//@   ensures[others]  bodyOnlyKeyChanged(body, BodyDeleted)
+
+//@ func Body.ExtractRev
+//@   safety on
+//@   requires body != nil
+//@   modifies elems(body)
+//@   ensures[rev]     result == ite(old(dynType(body[BodyRev]) == typeTag(string)), old(unbox(body[BodyRev], string)), "")
+//@   ensures[removed] !(BodyRev in body)
+//@   ensures[others]  bodyOnlyKeyChanged(body, BodyRev)
+
+// PutExistingRevWithBody (bulk_docs new_edits=false, ISGR/test pushes with a body map): the body installed on the
+// document that is written has none of _sync, _deleted, _rev, _id, _revisions, _attachments; the tombstone flag and the
+// revision id handed on are the body's own "_deleted": true and "_rev".
+// [no-exp] additionally requires "_exp" to be gone. It FAILS on the real code (candidate finding): ExtractExpiry's error
+// is DISCARDED here (`expiry, _ :=`), and for an invalid "_exp" value ExtractExpiry returns before deleting the key, so
+// a new_edits=false write with {"_exp":"not-a-date","k":1} is accepted without error, no expiry is applied and the
+// revision is stored with body {"_exp":"not-a-date","k":1} (Put() rejects the same body with 400). Demonstration:
+// TestC19InvalidExpStoredByPutExistingRevWithBody (/tmp/cw/c19keep/F_c19_invalid_exp_stored_test.go).
+//@ func DatabaseCollectionWithUser.PutExistingRevWithBody
+//@   requires body != nil
+//@   modifies *
+//@   before[no-reserved-in-stored-body] call UpdateBody#1 $1 == body && !(base.SyncPropertyName in $1) && !(BodyDeleted in $1) && !(BodyRev in $1) && !(BodyId in $1) && !(BodyRevisions in $1) && !(BodyAttachments in $1)
+//@   before[no-exp]                     call UpdateBody#1 !(BodyExpiry in $1)
+//@   before[flags]                      call UpdateBody#1 $0.Deleted == old(body.IsDeleted()) && $0.ID == docid
